@@ -8,7 +8,7 @@ import (
 )
 
 func init() {
-	allMonitors = append(allMonitors, monitor{"C25", monC25})
+	allMonitors = append(allMonitors, monitor{"C25", monC25}, monitor{"C13", monC13})
 }
 
 // ---- C25 a postings request is recorded exactly as submitted; insufficient funds iff the in-order walk fails
@@ -94,6 +94,62 @@ func monC25(hr *HistRun) string {
 			if !found {
 				return fmt.Sprintf("op %d: committed transaction not listed", i)
 			}
+		}
+	}
+	return ""
+}
+
+// ---- C13 idempotency keys: at most one log per key; same key + same input = the original answer flagged as a hit and no
+// effect; same key + different input = idempotency-input error and no effect
+func monC13(hr *HistRun) string {
+	type first struct {
+		in    string
+		logID int64
+		txID  *int64
+		at    int
+	}
+	seen := map[string]first{}
+	for i, o := range hr.Ops {
+		if i >= len(hr.Res) || hr.Res[i].Panic != "" {
+			break
+		}
+		r := hr.Res[i]
+		// at most one log per key
+		cnt := map[string]int{}
+		for _, l := range hr.Snaps[i].Logs {
+			if l.IK != "" {
+				cnt[l.IK]++
+				if cnt[l.IK] > 1 {
+					return fmt.Sprintf("step %d: %d logs carry idempotency key %q", i, cnt[l.IK], l.IK)
+				}
+			}
+		}
+		if o.IK == "" {
+			continue
+		}
+		f, ok := seen[o.IK]
+		if !ok {
+			if r.Hit {
+				return fmt.Sprintf("step %d: first use of key %q reported as an idempotency hit", i, o.IK)
+			}
+			if r.Class == "none" && !o.Dry {
+				seen[o.IK] = first{o.inputSx(), r.LogID, r.TxID, i}
+			}
+			continue
+		}
+		unchanged := i > 0 && hr.Snaps[i].sx() == hr.Snaps[i-1].sx()
+		if f.in == o.inputSx() {
+			if r.Class != "none" || !r.Hit {
+				return fmt.Sprintf("step %d: replay of step %d under key %q with the same input returned %s (expected the original log %d flagged as a hit)", i, f.at, o.IK, r.sx(), f.logID)
+			}
+			if r.LogID != f.logID || (r.TxID == nil) != (f.txID == nil) || (r.TxID != nil && *r.TxID != *f.txID) {
+				return fmt.Sprintf("step %d: replay under key %q returned %s, the original was log %d", i, o.IK, r.sx(), f.logID)
+			}
+		} else if r.Class != "idempotency_input" {
+			return fmt.Sprintf("step %d: key %q reused with a different input returned %s (expected the idempotency-input validation error)", i, o.IK, r.sx())
+		}
+		if !unchanged {
+			return fmt.Sprintf("step %d: request under the already used key %q changed the ledger", i, o.IK)
 		}
 	}
 	return ""
